@@ -14,12 +14,21 @@ use refimpl::wire::{self, NegReply};
 use serde::{Deserialize, Serialize};
 
 pub const LEVEL: &str = "exploration";
-pub const RULE: &str = "two sub-lanes. scripted: Connector::connect and x224::Client::connect (offered masks SSL, SSL|HYBRID, HYBRID; with and without an authentication protocol) against a scripted connection confirm: RDP_NEG_RSP with every low-byte selected-protocol value (exhaustive), 0x100/0x101/0x10000/0x80000000/0xffffffff, every single bit, random u32; every flag byte; RDP_NEG_FAILURE; echoed RDP_NEG_REQ; absent negotiation data; unknown type bytes; wrong length field; truncations; trailing garbage. Oracle: unless the reply is a well-formed RDP_NEG_RSP selecting exactly one offered protocol, the call returns Err and the client writes nothing after its connection request; otherwise everything it writes next on the raw transport parses as TLS records starting with a ClientHello (never TPKT, NTLMSSP or credentials in clear). tls: whole connections through real TLS: raw transcript = connection request + TLS records only; with check_certificate an untrusted server certificate gives Err with zero application bytes received by the server, a CA-signed one is accepted, and without check_certificate the untrusted one is accepted. Non-trivial = well-formed response selecting a protocol that was not offered, or an untrusted-certificate case; distinct by hash of the case.";
+pub const RULE: &str = "two sub-lanes. scripted: Connector::connect (all 64 combinations of use_nla / check_certificate / restricted admin / blank credentials / password hash / auto logon; also as the second connect() on a Connector object whose first negotiation ended in a failure code, without negotiation data or with each selection) and x224::Client::connect (offered masks SSL, SSL|HYBRID, HYBRID; with and without an authentication protocol) against a scripted connection confirm: RDP_NEG_RSP with every low-byte selected-protocol value (exhaustive), 0x100/0x101/0x10000/0x80000000/0xffffffff, every single bit, random u32; every flag byte; RDP_NEG_FAILURE; echoed RDP_NEG_REQ; absent negotiation data; unknown type bytes; wrong length field; truncations; trailing garbage. Oracle: unless the reply is a well-formed RDP_NEG_RSP selecting exactly one offered protocol, the call returns Err and the client writes nothing after its connection request; otherwise everything it writes next on the raw transport parses as TLS records starting with a ClientHello (never TPKT, NTLMSSP or credentials in clear). tls: whole connections through real TLS: raw transcript = connection request + TLS records only; with check_certificate an untrusted server certificate gives Err with zero application bytes received by the server, a CA-signed one is accepted, and without check_certificate the untrusted one is accepted. Non-trivial = well-formed response selecting a protocol that was not offered, or an untrusted-certificate case; distinct by hash of the case.";
 
 #[derive(Serialize, Deserialize, Hash, Clone, Debug)]
 pub enum Entry {
     /// Connector::connect with use_nla / check_certificate / restricted admin / blank creds
-    Connector { nla: bool, check: bool, restricted: bool, blank: bool },
+    Connector {
+        nla: bool,
+        check: bool,
+        restricted: bool,
+        blank: bool,
+        #[serde(default)]
+        hash: bool,
+        #[serde(default)]
+        auto: bool,
+    },
     /// x224::Client::connect(mask, auth present)
     X224 { mask: u8, auth: bool },
 }
@@ -29,6 +38,10 @@ pub struct Case {
     pub entry: Entry,
     pub reply: NegReply,
     pub fault: Option<FaultKind>,
+    /// Connector entries: an earlier connect() on the same Connector object was answered with this reply (its outcome is
+    /// not asserted); the negotiation of the next connection must not depend on it
+    #[serde(default)]
+    pub prior: Option<NegReply>,
 }
 
 pub fn run(c: &Case) -> Outcome {
@@ -55,9 +68,18 @@ pub fn run(c: &Case) -> Outcome {
     let (reader, _h, _e) = ChunkReader::new(bytes.clone(), vec![]);
     let wrote = reader.written.clone();
     let (r, _) = match &c.entry {
-        Entry::Connector { nla, check, restricted, blank } => {
-            let cfg = ClientCfg { nla: *nla, check_certificate: *check, restricted_admin: *restricted, blank_creds: *blank, password: "S3cr3t-Passw0rd!".into(), ..ClientCfg::simple() };
+        Entry::Connector { nla, check, restricted, blank, hash, auto } => {
+            let cfg = ClientCfg { nla: *nla, check_certificate: *check, restricted_admin: *restricted, blank_creds: *blank, hash: if *hash { Some(vec![0x5A; 16]) } else { None }, auto_logon: *auto, password: "S3cr3t-Passw0rd!".into(), ..ClientCfg::simple() };
             let mut conn = tls::connector_of(&cfg);
+            if let Some(p) = &c.prior {
+                out.label("connector-reused");
+                let (r0, _h0, _e0) = ChunkReader::new(wire::connection_confirm(p).bytes, vec![]);
+                let (r, _) = call(|| conn.connect(r0).map(|_| ()));
+                if let Res::Panic(p) = r {
+                    fail_panic(&mut out, "connect(earlier)", &p);
+                    return out;
+                }
+            }
             call(move || conn.connect(reader).map(|_| ()))
         }
         Entry::X224 { mask, auth } => {
@@ -126,13 +148,10 @@ fn parse_rsp(bytes: &[u8]) -> Option<u32> {
 
 fn entries() -> Vec<Entry> {
     let mut v = Vec::new();
-    for nla in [false, true] {
-        for check in [false, true] {
-            v.push(Entry::Connector { nla, check, restricted: false, blank: false });
-        }
+    // every combination of the connector options that could influence what is offered or accepted
+    for bits in 0..64u8 {
+        v.push(Entry::Connector { nla: bits & 1 != 0, check: bits & 2 != 0, restricted: bits & 4 != 0, blank: bits & 8 != 0, hash: bits & 16 != 0, auto: bits & 32 != 0 });
     }
-    v.push(Entry::Connector { nla: true, check: false, restricted: true, blank: false });
-    v.push(Entry::Connector { nla: true, check: false, restricted: false, blank: true });
     for mask in [1u8, 2, 3] {
         for auth in [false, true] {
             v.push(Entry::X224 { mask, auth });
@@ -151,32 +170,45 @@ fn sweep(part: usize, parts: usize) -> impl Iterator<Item = Case> {
     }
     for e in entries() {
         for s in &sels {
-            v.push(Case { entry: e.clone(), reply: NegReply::Response { flags: 0, selected: *s }, fault: None });
+            v.push(Case { entry: e.clone(), reply: NegReply::Response { flags: 0, selected: *s }, fault: None, prior: None });
         }
         for f in 0..=255u8 {
             for s in [0u32, 1, 2, 3] {
-                v.push(Case { entry: e.clone(), reply: NegReply::Response { flags: f, selected: s }, fault: None });
+                v.push(Case { entry: e.clone(), reply: NegReply::Response { flags: f, selected: s }, fault: None, prior: None });
             }
         }
         for code in [0u32, 1, 2, 3, 4, 5, 6, 0xFFFF_FFFF] {
-            v.push(Case { entry: e.clone(), reply: NegReply::Failure { flags: 0, code }, fault: None });
+            v.push(Case { entry: e.clone(), reply: NegReply::Failure { flags: 0, code }, fault: None, prior: None });
         }
         for typ in 0..=255u8 {
             for val in [0u32, 1, 2, 3] {
-                v.push(Case { entry: e.clone(), reply: NegReply::Other { typ, flags: 0, length: 8, value: val }, fault: None });
+                v.push(Case { entry: e.clone(), reply: NegReply::Other { typ, flags: 0, length: 8, value: val }, fault: None, prior: None });
             }
         }
         for len in [0u16, 4, 7, 9, 16, 0xFFFF] {
-            v.push(Case { entry: e.clone(), reply: NegReply::Other { typ: 2, flags: 0, length: len, value: 1 }, fault: None });
+            v.push(Case { entry: e.clone(), reply: NegReply::Other { typ: 2, flags: 0, length: len, value: 1 }, fault: None, prior: None });
         }
-        v.push(Case { entry: e.clone(), reply: NegReply::Absent, fault: None });
+        v.push(Case { entry: e.clone(), reply: NegReply::Absent, fault: None, prior: None });
         for sel in [0u32, 1, 2] {
             let full = wire::connection_confirm(&NegReply::Response { flags: 0, selected: sel }).bytes.len();
             for t in 0..full {
-                v.push(Case { entry: e.clone(), reply: NegReply::Response { flags: 0, selected: sel }, fault: Some(FaultKind::Truncate(t as u16)) });
+                v.push(Case { entry: e.clone(), reply: NegReply::Response { flags: 0, selected: sel }, fault: Some(FaultKind::Truncate(t as u16)), prior: None });
             }
             for ext in [vec![0u8], vec![1, 2, 3, 4], vec![3, 0, 0, 7, 2, 0xF0, 0x80]] {
-                v.push(Case { entry: e.clone(), reply: NegReply::Response { flags: 0, selected: sel }, fault: Some(FaultKind::Extend(ext)) });
+                v.push(Case { entry: e.clone(), reply: NegReply::Response { flags: 0, selected: sel }, fault: Some(FaultKind::Extend(ext)), prior: None });
+            }
+        }
+    }
+    // a Connector object used twice: the first negotiation ends in each possible way, the second reply selects each protocol
+    for e in entries() {
+        if !matches!(e, Entry::Connector { .. }) {
+            continue;
+        }
+        let mut priors: Vec<NegReply> = (0..=7u32).map(|code| NegReply::Failure { flags: 0, code }).collect();
+        priors.extend([NegReply::Absent, NegReply::Response { flags: 0, selected: 0 }, NegReply::Response { flags: 0, selected: 1 }, NegReply::Response { flags: 0, selected: 2 }, NegReply::Response { flags: 0, selected: 8 }]);
+        for p in priors {
+            for reply in [NegReply::Response { flags: 0, selected: 0 }, NegReply::Response { flags: 0, selected: 1 }, NegReply::Response { flags: 0, selected: 2 }, NegReply::Response { flags: 0, selected: 3 }, NegReply::Response { flags: 0, selected: 8 }, NegReply::Absent, NegReply::Failure { flags: 0, code: 1 }] {
+                v.push(Case { entry: e.clone(), reply, fault: None, prior: Some(p.clone()) });
             }
         }
     }
@@ -193,7 +225,16 @@ pub fn decode(s: &mut Src) -> Case {
         _ => NegReply::Response { flags: if s.bool() { 0 } else { s.u8() }, selected: if s.bool() { s.u32() } else { s.b32() } },
     };
     let fault = if s.chance(64) { Some(FaultKind::Xor(vec![(s.u16(), s.u8() | 1)])) } else { None };
-    Case { entry, reply, fault }
+    let prior = if matches!(entry, Entry::Connector { .. }) && s.chance(64) {
+        Some(match s.below(4) {
+            0 => NegReply::Failure { flags: 0, code: s.below(8) as u32 },
+            1 => NegReply::Absent,
+            _ => NegReply::Response { flags: 0, selected: s.pick(&[0u32, 1, 2, 3, 8]) },
+        })
+    } else {
+        None
+    };
+    Case { entry, reply, fault, prior }
 }
 
 // ---- TLS sub-lane -------------------------------------------------------------------------
